@@ -127,6 +127,7 @@ class ComposeMoment:
 
 
 class NormPrim:
+    fp = True  # also sampled on the unmodified float64 code (bounded stand-in for rounding)
     """GeneralizedContractionShell.norm_prim_cart[c,k]^2 * int g^2 = 1 and > 0, shape (L, K)"""
 
     function = "gbasis.contractions.GeneralizedContractionShell.norm_prim_cart"
@@ -177,6 +178,7 @@ def spec_of_shell(M, sh):
 
 
 class OverlapBlock:
+    fp = True  # also sampled on the unmodified float64 code (bounded stand-in for rounding)
     """Overlap.construct_array_contraction(s1, s2)[m1,c1,m2,c2] = int phi~_{s1,m1,c1} phi~_{s2,m2,c2}
     (primitive-normalised, contraction not yet normalised), callees inlined; fresh; frame."""
 
@@ -258,6 +260,7 @@ class AssignNormCont:
 
 
 class NormContInline:
+    fp = True  # also sampled on the unmodified float64 code (bounded stand-in for rounding)
     """end to end: a shell as constructed is unit-normalised: norm_cont[m,c]^2 * <phi~|phi~>_spec = 1
     (real constructor, real Overlap, nested radical), and again after its exponents / coefficients
     were replaced through the setters followed by assign_norm_cont()."""
